@@ -174,7 +174,8 @@ Qed.
 Lemma proven_bound : forall gap rb obj,
   gap_ok gap obj = true -> proven gap (Some rb) (inject_Z obj) = true -> (obj <= rb)%Z.
 Proof.
-  intros gap rb obj Hg Hp. unfold gap_ok in Hg. apply Qleb_le in Hg. unfold proven in Hp. apply Qltb_lt in Hp.
+  intros gap rb obj Hg Hp. unfold gap_ok in Hg. apply Qleb_le in Hg. unfold proven in Hp.
+  apply andb_true_iff in Hp. destruct Hp as [_ Hp]. apply Qltb_lt in Hp.
   set (M := qmax (Qabs (inject_Z obj)) (1 # 10000000000)) in *.
   assert (HM : (0 < M)%Q) by (apply qmax_pos_r; reflexivity).
   assert (H1 : (inject_Z obj - inject_Z rb < gap * M)%Q).
